@@ -18,7 +18,7 @@ def header(mtype, plen, version=VERSION, flags=0):
 
 
 class Daemon:
-    def __init__(self, tdir, workdir, env_extra=None, wrapper=None, verbose=False):
+    def __init__(self, tdir, workdir, env_extra=None, wrapper=None, verbose=False, idle_timeout=None):
         self.tdir = tdir
         self.sock = os.path.join(workdir, "vmd.sock")
         self.pid = os.path.join(workdir, "vmd.pid")
@@ -26,7 +26,7 @@ class Daemon:
         self.env = dict(os.environ, NANOLANG_VERIF_VMD_SOCK=self.sock, NANOLANG_VERIF_VMD_PID=self.pid)
         if env_extra:
             self.env.update(env_extra)
-        cmd = (wrapper or []) + [os.path.join(tdir, "bin", "nano_vmd"), "--foreground", "--no-timeout"] + (["--verbose"] if verbose else [])
+        cmd = (wrapper or []) + [os.path.join(tdir, "bin", "nano_vmd"), "--foreground"] + (["--idle-timeout", str(idle_timeout)] if idle_timeout else ["--no-timeout"]) + (["--verbose"] if verbose else [])
         self.errf = open(self.errlog, "wb")
         # own process group: a tracer used as wrapper (strace) detaches when it is terminated and would leave the daemon behind
         self.proc = subprocess.Popen(cmd, env=self.env, stdin=subprocess.DEVNULL, stdout=subprocess.DEVNULL, stderr=self.errf, cwd=tdir,
@@ -96,6 +96,25 @@ class Daemon:
             return h is not None and h[1] == MSG_PONG
         except OSError:
             return False
+
+    def active_clients(self):
+        """STATUS request: the number the daemon reports (this session included), None if there is no proper reply"""
+        try:
+            s = self.connect(5.0)
+            s.sendall(header(MSG_STATUS, 0))
+            h = recv_exact(s, 8)
+            if h is None or h[1] != MSG_STATUS_RSP:
+                s.close()
+                return None
+            n = struct.unpack("<I", h[4:8])[0]
+            body = recv_exact(s, n) if n else b""
+            s.close()
+            txt = (body or b"").decode(errors="replace")
+            if "active_clients=" not in txt:
+                return None
+            return int(txt.split("active_clients=")[1].split()[0].strip("\x00"))
+        except (OSError, ValueError):
+            return None
 
     def exec_blob(self, blob, chunk_delay=None, timeout=60.0):
         """well-behaved client: returns dict(out, err, exit) or dict(error=...)"""
